@@ -14,3 +14,4 @@ import TjdLemmas.NashLemmas
 import TjdLemmas.ImpartialLemmas
 import TjdLemmas.EquivLemmas
 import TjdLemmas.HomogLemmas
+import TjdLemmas.GramLemmas
